@@ -28,6 +28,7 @@ RULE = ('include trees (depth<=4, fan-out<=3, a file included twice) with confli
         'requested name in any search location / at a missing absolute name (not something anybody can read: the search moves on, or ends in the '
         'IOError naming the locations); namespace packages spread over 1-3 entries of the Python path with the file in any non-empty subset of '
         'the portions, at package depth 1-2, through all three entry points. '
+        'Search locations are registered absolute or relative to the current directory. '
         'distinct = (tree shape, cell placement pattern, #locations, #readers, entry point)')
 TIERS = {
     'quick': {'workers': 8, 'cases': 750, 'timeout': 600},
